@@ -261,6 +261,17 @@ pub fn gen_target(rng: &mut Rng, i: usize) -> TargetSpec {
     }
 }
 
+/// Every back-end call of a connection carries that connection's client address, whatever a cookie says.
+pub fn check_service_addresses(sc: &ConnScenario, out: &ConnOutcome, rep: &mut RunReport) {
+    for e in out.log.iter().filter(|e| e.kind == "call" && e.actor.starts_with("svc:")) {
+        if let Some(a) = e.detail.get("client_addr").and_then(|a| a.as_str())
+            && a.parse::<SocketAddr>().ok() != sc.cfg.client_addr.parse::<SocketAddr>().ok()
+        {
+            rep.violate("services_see_connection_address", format!("{} was called with client address {a}, the connection's client address is {}", e.actor, sc.cfg.client_addr));
+        }
+    }
+}
+
 pub fn secs(s: u64) -> u64 {
     s * 1_000_000_000
 }
@@ -277,7 +288,7 @@ pub fn conn_domain_ok(sc: &ConnScenario) -> bool {
 /// Net-sim scenarios outside every check's domain (the shrinker may propose them).
 pub fn net_domain_ok(sc: &crate::net::NetScenario) -> bool {
     sc.cfg.limiter.is_none_or(|(d, l)| d >= 1_000_000 && l >= 1)
-        && sc.cfg.timeout_ns >= 1_000_000_000
+        && (sc.cfg.timeout_ns >= 1_000_000_000 || sc.cfg.timeout_ns == 0)
         && sc.clients.iter().all(|c| c.peer.parse::<SocketAddr>().is_ok())
         && {
             let mut peers: Vec<&String> = sc.clients.iter().map(|c| &c.peer).collect();
